@@ -30,11 +30,11 @@ func init() {
 // guardEntry is one row of the frozen guard table.
 type guardEntry struct {
 	name   string
-	field  *types.Var   // guarded field
-	via    *types.Var   // field the access path must pass through immediately before (nil = any)
-	lock   *types.Var   // designated mutex field (nil = none designated)
-	strip  int          // number of trailing path elements to strip to reach the lock owner
-	single bool         // lock owner is the singleton runner
+	field  *types.Var // guarded field
+	via    *types.Var // field the access path must pass through immediately before (nil = any)
+	lock   *types.Var // designated mutex field (nil = none designated)
+	strip  int        // number of trailing path elements to strip to reach the lock owner
+	single bool       // lock owner is the singleton runner
 	isMap  bool
 	// condFlag: the field is the predicate of a sync.Cond wait loop; atomic operations on it count as accesses
 	condFlag bool
@@ -447,83 +447,10 @@ func runC20(c *Ctx) {
 		}
 	}
 
-	// one writer at a time per websocket connection (gorilla/websocket: concurrent writers corrupt frames or panic)
+	s.checkWebsocketWrites(c, ls, "websocket-writes-serialised-per-connection")
 	{
-		rWs := c.Rule("websocket-writes-serialised-per-connection", "every write to a websocket connection (WriteJSON / WriteMessage) is made with a mutex held, and that mutex is shared by all goroutines writing to the same connection: it is a field of the API object, or it is created where the connection is (not once per goroutine started in a loop over one connection)")
-		isWsWrite := func(in ssa.Instruction) bool {
-			call, ok := in.(*ssa.Call)
-			if !ok {
-				return false
-			}
-			o := CalleeObj(&call.Call)
-			return o != nil && o.Pkg() != nil && o.Pkg().Path() == "github.com/gorilla/websocket" && (o.Name() == "WriteJSON" || o.Name() == "WriteMessage")
-		}
-		n := 0
-		for _, f := range p.FuncsOfPkg("api") {
-			for _, w := range FindInstrs(f, isWsWrite) {
-				n++
-				c.Touch(f)
-				held := ls.HeldAt(w)
-				if !c.Check(len(held) > 0, rWs, "locked:"+p.FuncKey(f), p.InstrPos(w), "a mutex is held at the write", "a websocket write is made without any mutex held: two log streams of one connection write concurrently") {
-					continue
-				}
-				// a mutex that is a parameter of the writing function: compare, at the go statements that start the
-				// writer, where the mutex and where the connection come from
-				okShare := true
-				AllInstrs(f, func(x ssa.Instruction) {
-					lc, isC := x.(*ssa.Call)
-					if !isC {
-						return
-					}
-					o := CalleeObj(&lc.Call)
-					if o == nil || o.Name() != "Lock" || o.Pkg() == nil || o.Pkg().Path() != "sync" || len(lc.Call.Args) == 0 {
-						return
-					}
-					prm, isPrm := lc.Call.Args[0].(*ssa.Parameter)
-					if !isPrm {
-						return
-					}
-					mi := -1
-					for i, q := range f.Params {
-						if q == prm {
-							mi = i
-						}
-					}
-					ci := -1
-					wc := w.(*ssa.Call)
-					for i, q := range f.Params {
-						if len(wc.Call.Args) > 0 && ssa.Value(q) == wc.Call.Args[0] {
-							ci = i
-						}
-					}
-					if mi < 0 || ci < 0 {
-						return
-					}
-					for _, cr := range p.Callers(f) {
-						g, isGo := cr.Instr.(*ssa.Go)
-						if !isGo {
-							continue
-						}
-						lp := InnermostLoopOf(g)
-						if lp == nil {
-							continue
-						}
-						inLoop := func(v ssa.Value) bool {
-							if in2, ok := v.(ssa.Instruction); ok {
-								return lp.Blocks[in2.Block()]
-							}
-							return false
-						}
-						args := g.Call.Args
-						if mi < len(args) && ci < len(args) && inLoop(args[mi]) && !inLoop(args[ci]) {
-							okShare = false
-						}
-					}
-				})
-				c.Check(okShare, rWs, "shared:"+p.FuncKey(f), p.InstrPos(w), "the mutex is shared by all writers of the connection", "the mutex held at the websocket write is created once per writer goroutine while the connection is shared by all writers started in that loop: a request naming several processes makes the writers write concurrently - corrupted frames, an abnormal close and a send on a closed channel in the process's output goroutine (the supervisor crashes)")
-			}
-		}
-		c.Check(n >= 1, rWs, "floor:websocket-writes", "", "websocket write sites found", "no websocket write site found in the api package")
+		rObs := c.Rule("observers-map-never-nil", "every store to the observer map of a log buffer stores a freshly made map")
+		s.checkObserversNeverNil(c, rObs)
 	}
 
 	// pointer escape of the live state record
@@ -1052,9 +979,9 @@ func describeBlocking(p *Prog, in ssa.Instruction, block *Deep) string {
 // lock pairing: every acquisition is released on all exits, every release has its acquisition
 
 type mutexOp struct {
-	in    ssa.Instruction
-	kind  string // Lock, Unlock, RLock, RUnlock
-	id    string // field + owner path, or local identity
+	in     ssa.Instruction
+	kind   string // Lock, Unlock, RLock, RUnlock
+	id     string // field + owner path, or local identity
 	defer_ bool
 }
 
@@ -1180,4 +1107,85 @@ func (s *Sel) checkLockPairing(c *Ctx) {
 		}
 	}
 	c.Floor(rule, 60, "lock/unlock sites")
+}
+
+// checkWebsocketWrites (C19, C20): one writer at a time per websocket connection (gorilla/websocket: concurrent
+// writers corrupt frames or panic outside gin's recovery - the server stops serving).
+func (s *Sel) checkWebsocketWrites(c *Ctx, ls *Locksets, ruleID string) {
+	p := c.P
+	rWs := c.Rule(ruleID, "every write to a websocket connection (WriteJSON / WriteMessage) is made with a mutex held, and that mutex is shared by all goroutines writing to the same connection: it is a field of the API object, or it is created where the connection is (not once per goroutine started in a loop over one connection)")
+	isWsWrite := func(in ssa.Instruction) bool {
+		call, ok := in.(*ssa.Call)
+		if !ok {
+			return false
+		}
+		o := CalleeObj(&call.Call)
+		return o != nil && o.Pkg() != nil && o.Pkg().Path() == "github.com/gorilla/websocket" && (o.Name() == "WriteJSON" || o.Name() == "WriteMessage")
+	}
+	n := 0
+	for _, f := range p.FuncsOfPkg("api") {
+		for _, w := range FindInstrs(f, isWsWrite) {
+			n++
+			c.Touch(f)
+			held := ls.HeldAt(w)
+			if !c.Check(len(held) > 0, rWs, "locked:"+p.FuncKey(f), p.InstrPos(w), "a mutex is held at the write", "a websocket write is made without any mutex held: two log streams of one connection write concurrently") {
+				continue
+			}
+			// a mutex that is a parameter of the writing function: compare, at the go statements that start the
+			// writer, where the mutex and where the connection come from
+			okShare := true
+			AllInstrs(f, func(x ssa.Instruction) {
+				lc, isC := x.(*ssa.Call)
+				if !isC {
+					return
+				}
+				o := CalleeObj(&lc.Call)
+				if o == nil || o.Name() != "Lock" || o.Pkg() == nil || o.Pkg().Path() != "sync" || len(lc.Call.Args) == 0 {
+					return
+				}
+				prm, isPrm := lc.Call.Args[0].(*ssa.Parameter)
+				if !isPrm {
+					return
+				}
+				mi := -1
+				for i, q := range f.Params {
+					if q == prm {
+						mi = i
+					}
+				}
+				ci := -1
+				wc := w.(*ssa.Call)
+				for i, q := range f.Params {
+					if len(wc.Call.Args) > 0 && ssa.Value(q) == wc.Call.Args[0] {
+						ci = i
+					}
+				}
+				if mi < 0 || ci < 0 {
+					return
+				}
+				for _, cr := range p.Callers(f) {
+					g, isGo := cr.Instr.(*ssa.Go)
+					if !isGo {
+						continue
+					}
+					lp := InnermostLoopOf(g)
+					if lp == nil {
+						continue
+					}
+					inLoop := func(v ssa.Value) bool {
+						if in2, ok := v.(ssa.Instruction); ok {
+							return lp.Blocks[in2.Block()]
+						}
+						return false
+					}
+					args := g.Call.Args
+					if mi < len(args) && ci < len(args) && inLoop(args[mi]) && !inLoop(args[ci]) {
+						okShare = false
+					}
+				}
+			})
+			c.Check(okShare, rWs, "shared:"+p.FuncKey(f), p.InstrPos(w), "the mutex is shared by all writers of the connection", "the mutex held at the websocket write is created once per writer goroutine while the connection is shared by all writers started in that loop: a request naming several processes makes the writers write concurrently - corrupted frames, an abnormal close and a send on a closed channel in the process's output goroutine (the supervisor crashes)")
+		}
+	}
+	c.Check(n >= 1, rWs, "floor:websocket-writes", "", "websocket write sites found", "no websocket write site found in the api package")
 }
